@@ -3,6 +3,7 @@ package main
 import (
 	"fmt"
 	"go/token"
+	"sort"
 	"strings"
 
 	"golang.org/x/tools/go/ssa"
@@ -34,6 +35,60 @@ func (w *World) lastWritersAt(f *ssa.Function, ptr ssa.Value, at ssa.Instruction
 	if fa, ok := ptr.(*ssa.FieldAddr); ok && typeIs(fa.X.Type(), apdPath, "Decimal") {
 		field = w.exprOf(f, ptr).Name
 	}
+	return w.lastWritersAtObj(f, obj, field, at, 0)
+}
+
+// lastWritersAtObj: the same for (object, Decimal field). When the object is a
+// parameter of an unexported function and nothing in the function wrote it
+// yet, the answer is taken from every call site (what the callers last did to
+// the argument), to a small depth.
+func (w *World) lastWritersAtObj(f *ssa.Function, obj ssa.Value, field string, at ssa.Instruction, depth int) []string {
+	res := w.lastWritersLocal(f, obj, field, at)
+	pr, isParam := obj.(*ssa.Parameter)
+	if !isParam || depth > 3 || f.Object() == nil || f.Object().Exported() {
+		return res
+	}
+	var out []string
+	resolved := false
+	for _, t := range res {
+		if t != "<none>" {
+			out = append(out, t)
+			continue
+		}
+		idx := -1
+		for i, p := range f.Params {
+			if p == pr {
+				idx = i
+			}
+		}
+		callers := w.callersOf(f)
+		if idx < 0 || len(callers) == 0 {
+			out = append(out, t)
+			continue
+		}
+		for _, c := range callers {
+			args := c.Common().Args
+			if c.Common().IsInvoke() || idx >= len(args) {
+				out = append(out, t)
+				continue
+			}
+			a := args[idx]
+			fld := field
+			if fa, ok := a.(*ssa.FieldAddr); ok && typeIs(fa.X.Type(), apdPath, "Decimal") && field == "" {
+				fld = w.exprOf(c.Parent(), a).Name
+			}
+			out = append(out, w.lastWritersAtObj(c.Parent(), basePtr(a), fld, c, depth+1)...)
+			resolved = true
+		}
+	}
+	if resolved {
+		sort.Strings(out)
+		out = uniqStrings(out)
+	}
+	return out
+}
+
+func (w *World) lastWritersLocal(f *ssa.Function, obj ssa.Value, field string, at ssa.Instruction) []string {
 	touches := func(a ssa.Value, g *ssa.Function, i int) bool {
 		if basePtr(a) != obj {
 			return false
@@ -178,18 +233,35 @@ func ruleSubnormalBoundary(w *World, r *RuleResult) {
 		key := name + " | subnormal iff adjusted exponent < c.MinExponent"
 		n := 0
 		var bad []string
-		for _, b := range f.Blocks {
-			iff, ok := b.Instrs[len(b.Instrs)-1].(*ssa.If)
-			if !ok {
-				continue
+		hasLeaf := func(m map[string]bool, suffix string) bool {
+			for l := range m {
+				if strings.HasSuffix(l, suffix) {
+					return true
+				}
 			}
-			bo, ok := iff.Cond.(*ssa.BinOp)
-			if !ok {
-				continue
+			return false
+		}
+		top := f
+		var blocks []*ssa.BasicBlock
+		for _, g := range w.closureFuncs(top) {
+			blocks = append(blocks, g.Blocks...)
+		}
+		var cmps []*ssa.BinOp
+		for _, b := range blocks {
+			for _, in := range b.Instrs {
+				if bo, ok := in.(*ssa.BinOp); ok {
+					switch bo.Op {
+					case token.LSS, token.GTR, token.LEQ, token.GEQ:
+						cmps = append(cmps, bo)
+					}
+				}
 			}
+		}
+		for _, bo := range cmps {
+			f := bo.Parent()
 			lx, ly := w.exprOf(f, bo.X).leaves(), w.exprOf(f, bo.Y).leaves()
-			minRight := ly["c.MinExponent"] && !lx["c.MinExponent"] && !ly["c.Precision"]
-			minLeft := lx["c.MinExponent"] && !ly["c.MinExponent"] && !lx["c.Precision"]
+			minRight := hasLeaf(ly, ".MinExponent") && !hasLeaf(lx, ".MinExponent") && !hasLeaf(ly, ".Precision")
+			minLeft := hasLeaf(lx, ".MinExponent") && !hasLeaf(ly, ".MinExponent") && !hasLeaf(lx, ".Precision")
 			if !minRight && !minLeft {
 				continue
 			}
@@ -199,7 +271,7 @@ func ruleSubnormalBoundary(w *World, r *RuleResult) {
 				op = map[token.Token]token.Token{token.LSS: token.GTR, token.GTR: token.LSS, token.LEQ: token.GEQ, token.GEQ: token.LEQ}[op]
 			}
 			if op != token.LSS && op != token.GEQ {
-				bad = append(bad, fmt.Sprintf("%s at %s puts the boundary case adj == MinExponent on the wrong side", w.exprOf(f, iff.Cond).String(), w.instrPos(iff)))
+				bad = append(bad, fmt.Sprintf("%s at %s puts the boundary case adj == MinExponent on the wrong side", w.exprOf(f, bo).String(), w.instrPos(bo)))
 			}
 		}
 		if n == 0 {
@@ -406,9 +478,9 @@ func ruleFastPathWriteBack(w *World, r *RuleResult) {
 		}
 		ev, ok1 := val.(*ssa.Extract)
 		en, ok2 := neg.(*ssa.Extract)
-		if ok1 && ok2 && ev.Tuple == en.Tuple && ev.Index == 0 && en.Index == 1 {
+		if ok1 && ok2 && ev.Tuple == en.Tuple && en.Index == ev.Index+1 {
 			if hc, ok := ev.Tuple.(*ssa.Call); ok && strings.HasSuffix(w.calleeName(hc), "Inline") {
-				r.ok(key, w.instrPos(c), "(val, neg) = results #0,#1 of "+w.calleeName(hc), true)
+				r.ok(key, w.instrPos(c), fmt.Sprintf("(val, neg) = results #%d,#%d of %s", ev.Index, en.Index, w.calleeName(hc)), true)
 				continue
 			}
 		}
